@@ -4,7 +4,7 @@
  Copies patch/demo/notes into /verif/seeded/<id>_<n>/ and writes meta.json."""
 import json, os, re, shutil, subprocess, sys
 pid, n = sys.argv[1], sys.argv[2]
-wt = f"/tmp/wt/{pid}"
+wt = os.environ.get("SEED_WT", "/tmp/wt") + f"/{pid}"
 env = dict(os.environ, PYTHONPATH=wt, PYTHONWARNINGS="ignore")
 def sh(cmd, **kw):
     return subprocess.run(cmd, shell=True, cwd=wt, env=env, capture_output=True, text=True, **kw)
@@ -24,7 +24,7 @@ finally:
 ok = r0.returncode == 0 and r1.returncode != 0 and imp.returncode == 0 and failed == BASE_FAIL
 print(f"{pid}_{n}: demo pristine rc={r0.returncode}, patched rc={r1.returncode}, import rc={imp.returncode}, failures={sorted(failed)} {summary} -> {'CONFIRMED' if ok else 'REJECTED'}")
 if ok:
-    d = f"/verif/seeded/{pid}_{n}"
+    d = f"/verif/seeded/{pid}_{int(n) + int(os.environ.get('SEED_OFFSET', '0'))}"
     os.makedirs(d, exist_ok=True)
     shutil.copy(patch, f"{d}/patch.diff"); shutil.copy(f"{wt}/{demo}", f"{d}/{demo}")
     if os.path.exists(f"{wt}/notes_{n}.md"): shutil.copy(f"{wt}/notes_{n}.md", f"{d}/notes.md")
